@@ -6,7 +6,7 @@ set -u
 ID=$1; V=$2; PKG=$3
 SRC=/tmp/seed/$ID-out
 export GOFLAGS=-mod=mod GOPROXY=off
-WT=$(mktemp -d /tmp/cf-XXXXXX)
+WT=$(mktemp -d /tmp/cf-$ID-$V-XXXXXX)
 git -C /repo worktree add --detach -f "$WT" HEAD >/dev/null 2>&1 || exit 2
 cleanup() { git -C /repo worktree remove --force "$WT" >/dev/null 2>&1; rm -rf "$WT"; }
 trap cleanup EXIT
@@ -14,13 +14,13 @@ DEMO=$SRC/${V}_demo_test.go
 cp "$DEMO" "$WT/$PKG/zz_seed_${V}_demo_test.go"
 TESTS=$(grep -o '^func Test[A-Za-z0-9_]*' "$DEMO" | sed 's/func //' | paste -sd'|')
 cd "$WT"
-go test -vet=off -count=1 -run "^($TESTS)\$" ./$PKG > /tmp/cf-demo-clean.log 2>&1; DEMO_CLEAN=$?
+go test -vet=off -count=1 -run "^($TESTS)\$" ./$PKG > /tmp/cf-$ID-$V-demo-clean.log 2>&1; DEMO_CLEAN=$?
 git apply "$SRC/$V.diff" || { echo "patch does not apply on HEAD"; exit 2; }
 TOUCHED=$(git diff --name-only | grep '\.go$' | xargs -n1 dirname | sort -u | sed 's#^#./#' | paste -sd' ')
-go build ./... > /tmp/cf-build.log 2>&1; BUILD=$?
-go test -vet=off -count=1 -run "^($TESTS)\$" ./$PKG > /tmp/cf-demo-seeded.log 2>&1; DEMO_SEEDED=$?
+go build ./... > /tmp/cf-$ID-$V-build.log 2>&1; BUILD=$?
+go test -vet=off -count=1 -run "^($TESTS)\$" ./$PKG > /tmp/cf-$ID-$V-demo-seeded.log 2>&1; DEMO_SEEDED=$?
 rm -f "$WT/$PKG/zz_seed_${V}_demo_test.go"
-go test -vet=off -count=1 $TOUCHED ./cmd/glyph ./tests > /tmp/cf-suite.log 2>&1; SUITE=$?
+go test -vet=off -count=1 $TOUCHED ./cmd/glyph ./tests > /tmp/cf-$ID-$V-suite.log 2>&1; SUITE=$?
 cd /verif
 CHECK_OUT=$(./selftest.sh $ID "$SRC/$V.diff" 2>&1 | grep -v KNOWN-FINDING | tail -3)
 CHECK=$(echo "$CHECK_OUT" | grep -o 'exit=[0-9]*' | tail -1)
@@ -39,5 +39,5 @@ json.dump({"property":id,"variant":v,"breaks":"see notes_excerpt","demo_package_
 PY
   echo "  stored $D"
 else
-  echo "  NOT CONFIRMED (see /tmp/cf-*.log)"
+  echo "  NOT CONFIRMED (see /tmp/cf-$ID-$V-*.log)"
 fi
